@@ -437,3 +437,14 @@ theorem rainflow_map (pts : List α) :
 end equivariance
 
 end PyYetiVerif.Rainflow
+
+namespace PyYetiVerif.Rainflow
+variable {α : Type} [Sub α] [Add α] [LT α] [DecidableLT α]
+
+/-- (also makes the functional-induction helpers of `reduce1` exist upstream of every user) -/
+theorem reduce1_nonempty (st : List α) (h : st ≠ []) : (reduce1 st).1 ≠ [] := by
+  fun_induction reduce1 st with
+  | case4 c b a r rest h res ih => simpa [res] using ih
+  | _ => simp_all
+
+end PyYetiVerif.Rainflow
